@@ -206,8 +206,12 @@ func (p *PFCPIface) VerifSnapshot() map[string]interface{} {
 
 	out["conns"] = conns
 
-	if up4, ok := p.fp.(*UP4); ok {
+	// only once the plug-in is connected (its pools are initialised before that is announced), and under the lock
+	// that serialises requests
+	if up4, ok := p.fp.(*UP4); ok && up4.IsConnected(nil) {
+		up4.sessionMu.Lock()
 		out["up4"] = up4.verifSnapshot()
+		up4.sessionMu.Unlock()
 	}
 
 	return out
